@@ -256,7 +256,7 @@ def afqmc(
                 np.linalg.norm(block_rdm2_n)
             ):
                 block_observable_n = trial_observable
-                block_rdm2_n = trial_rdm2
+                block_rdm2_n = trial_rdm2.reshape(rdm_2_op.shape)
                 local_large_deviations += 1
         else:
             block_energy_n, prop_data = sampler.propagate_phaseless(
